@@ -62,7 +62,9 @@ class ForLoop:
         self.name = i.name
         self.indexed_symbols = OrderedDict()
 
-    def register_indexed_symbol(self, e, index_function, transpose, tree, index_expr=None):
+    def register_indexed_symbol(
+        self, e, index_function, transpose, tree, index_expr=None, dim=None
+    ):
         if isinstance(index_expr, ca.MX) and index_expr is not self.index_variable:
             F = ca.Function("index_expr", [self.index_variable], [index_expr])
             # expr = lambda ar: np.array([F(a)[0] for a in ar], dtype=int)
@@ -71,10 +73,57 @@ class ForLoop:
             indices = np.array(res[0].T, dtype=int)
         else:
             indices = self.values
+        if dim is not None and np.size(indices) > 0:
+            # Modelica indexing starts from one;  Python from zero.  Negative
+            # Python indices would silently wrap around.
+            if np.min(indices) < 1 or np.max(indices) > dim:
+                raise ValueError(
+                    "Indices {}..{} of symbol {} in for loop over {} are out of bounds. "
+                    "Index should be in range [1,{}] "
+                    "(Modelica uses 1-based indexing).".format(
+                        np.min(indices), np.max(indices), tree.name, self.name, dim
+                    )
+                )
         self.indexed_symbols[e] = ForLoopIndexedSymbol(tree, transpose, index_function(indices - 1))
 
 
 Assignment = namedtuple("Assignment", ["left", "right"])
+
+
+def _python_slice(sl, dim, symbol_name):
+    """
+    Convert a Modelica subscript range (one-based, stop included) on a
+    dimension of size dim to a Python slice (zero-based, stop excluded).
+    Raises a ValueError if a constant range selects an element outside [1, dim].
+    """
+    start, stop, step = sl.start, sl.stop, sl.step
+    if not all(x is None or isinstance(x, int) for x in (start, stop, step, dim)):
+        # Not a constant range; convert without range check.
+        return slice(None if start is None else start - 1, stop, step)
+
+    step = 1 if step is None else step
+    if step == 0:
+        raise ValueError("Slice of symbol {} has a step of zero.".format(symbol_name))
+    if start is None:
+        start = 1 if step > 0 else dim
+    if stop is None:
+        stop = dim if step > 0 else 1
+
+    selected = range(start, stop + (1 if step > 0 else -1), step)
+    if len(selected) == 0:
+        return slice(0, 0, 1)
+
+    first, last = selected[0], selected[-1]
+    if min(first, last) < 1 or max(first, last) > dim:
+        raise ValueError(
+            "Slice {}:{}:{} of symbol {} is out of bounds. "
+            "Indices should be in range [1,{}] "
+            "(Modelica uses 1-based indexing).".format(start, step, stop, symbol_name, dim)
+        )
+    if step > 0:
+        return slice(first - 1, last, step)
+    # Going down to the first element: there is no non-negative Python stop value for that.
+    return slice(first - 1, last - 2 if last >= 2 else None, step)
 
 
 class GeneratorWalker(TreeWalker):
@@ -844,6 +893,7 @@ class Generator(TreeListener):
 
         # Check whether we loop over an index of this symbol
         indices = []
+        dims = []
         for_loop = None
         for i, (index_array, shape) in enumerate(zip(tree.indices, shapes)):
             if len(index_array) > len(shape):
@@ -869,6 +919,11 @@ class Generator(TreeListener):
                             # TODO support nested loops
                             for_loop = f
                             sl = for_loop.index_variable
+                            if dim is None:
+                                raise ValueError(
+                                    "Symbol {} was given an index of {} but this symbol "
+                                    "is not an array.".format(tree.name, f.name)
+                                )
 
                 if sl is None:
                     sl = self.get_integer(index) if index is not None else None
@@ -901,11 +956,12 @@ class Generator(TreeListener):
                         sl = sl - 1
                     elif isinstance(sl, slice):
                         # Modelica indexing starts from one;  Python from zero.
-                        sl = slice(None if sl.start is None else sl.start - 1, sl.stop, sl.step)
+                        sl = _python_slice(sl, dim, tree.name)
                     else:
                         for_loop = self.for_loops[-1]
 
                 indices.append(sl)
+                dims.append(dim)
 
         if for_loop is not None:
             if isinstance(indices[0], ca.MX):
@@ -928,7 +984,7 @@ class Generator(TreeListener):
                 # map the for loop over it
                 if np.prod(s.shape) != 0:
                     for_loop.register_indexed_symbol(
-                        indexed_symbol, index_function, True, tree, indices[0]
+                        indexed_symbol, index_function, True, tree, indices[0], dims[0]
                     )
             else:
                 s = ca.transpose(s[indices[0], :])
@@ -938,7 +994,7 @@ class Generator(TreeListener):
 
                 if np.prod(s.shape) != 0:
                     for_loop.register_indexed_symbol(
-                        indexed_symbol, lambda i: (indices[0], i), False, tree, indices[1]
+                        indexed_symbol, lambda i: (indices[0], i), False, tree, indices[1], dims[1]
                     )
             return indexed_symbol
         else:
